@@ -20,7 +20,7 @@
 //   - addresses borrowed by the local node from a remote block (flagged both local and remote by
 //     design) beyond the local-workload flag;
 //   - blocks whose pool is absent or load-balancer-only (no encapsulation to require anything);
-//   - IPv6, WorkloadIPs route source, wireguard.
+//   - WorkloadIPs route source, wireguard, IPIP over IPv6 (does not exist).
 package main
 
 import (
@@ -65,13 +65,40 @@ var nodeAddrCands = map[string][]string{
 	"n4": {"172.16.0.5/24", "192.168.0.5/25"},
 }
 
-var poolCands = []string{"10.0.0.0/16", "10.1.0.0/16", "10.2.0.0/24", "10.3.0.0/26"}
+// IPv6 host address candidates per node; an IPv6 address is optional and can be removed again.
+var nodeAddr6Cands = map[string][]string{
+	me:   {"fd00:a::1/64", "fd00:a::1/48", "fd00:b::1/64"},
+	"n1": {"fd00:a::2/64", "fd00:b::2/64"},
+	"n2": {"fd00:a::3/64", "fd00:a:0:1::3/64"}, // the second is inside the local /48 but outside the local /64
+	"n3": {"fd00:b::4/64", "fd00:a::4/64"},
+	"n4": {"fd00:c::5/64", "fd00:a::5/64"},
+}
+
+var poolCands = []string{"10.0.0.0/16", "10.1.0.0/16", "10.2.0.0/24", "10.3.0.0/26", "fd10::/48", "fd11::/48", "fd12::/122"}
 var poolModes = []string{"none", "ipip", "ipip-cs", "vxlan", "vxlan-cs"}
+var poolModes6 = []string{"none", "vxlan", "vxlan-cs", "vxlan-cs"} // IPIP is IPv4 only
+
+func isV6(s string) bool { return strings.Contains(s, ":") }
+
+// fullLen: the prefix is a single address (/32 or /128).
+func fullLen(p netip.Prefix) bool { return p.Bits() == p.Addr().BitLen() }
+
+// hostSuffix renders a single address as a CIDR string.
+func hostCIDR(ip string) string {
+	if isV6(ip) {
+		return ip + "/128"
+	}
+	return ip + "/32"
+}
+
+func blockSize(p netip.Prefix) int { return 1 << (p.Addr().BitLen() - p.Bits()) }
 
 // Disjoint block candidates; 10.3.0.0/26 coincides with a pool CIDR, 10.0.2.0/32 is a single-address
 // block, 10.9.0.0/26 is in no pool.
 var blockCands = []string{"10.0.0.0/26", "10.0.0.64/26", "10.0.1.0/26", "10.0.2.0/32", "10.1.0.0/26", "10.1.0.64/26",
-	"10.2.0.0/26", "10.2.0.64/28", "10.3.0.0/26", "10.9.0.0/26"}
+	"10.2.0.0/26", "10.2.0.64/28", "10.3.0.0/26", "10.9.0.0/26",
+	// IPv6: fd12::/122 coincides with a pool, fd10:0:0:2::/128 is a single-address block, fd19::/122 is in no pool.
+	"fd10::/122", "fd10::40/122", "fd10:0:0:1::/122", "fd10:0:0:2::/128", "fd11::/122", "fd11::40/122", "fd12::/122", "fd19::/122"}
 
 var wepNames = []string{"w0", "w1", "w2"}
 
@@ -86,6 +113,10 @@ type nodeV struct {
 	VXLANTun string `json:"vxlan_tun,omitempty"`
 	IPIPTun  string `json:"ipip_tun,omitempty"`
 	MAC      string `json:"mac,omitempty"`
+	// IPv6 (all optional)
+	Addr6     string `json:"addr6,omitempty"` // CIDR form
+	VXLANTun6 string `json:"vxlan_tun6,omitempty"`
+	MAC6      string `json:"mac6,omitempty"`
 }
 
 type blockV struct {
@@ -140,6 +171,17 @@ func tunnelCands(node string, kind string) []string {
 	if node == "n1" && kind == "vxlan" {
 		out = append(out, "10.0.2.0") // the /32 block itself
 	}
+	if kind == "vxlan6" {
+		out = []string{
+			fmt.Sprintf("fd10:0:0:3::%x", base+i), // in pool fd10::/48, in no block
+			ordinalIP("fd10::/122", base+i),       // inside a block
+			ordinalIP("fd11::40/122", base+i),     // inside a block of another pool
+			fmt.Sprintf("fd17::%x", base+i),       // in no pool
+		}
+		if node == "n1" {
+			out = append(out, "fd10:0:0:2::") // the /128 block itself
+		}
+	}
 	return out
 }
 
@@ -171,6 +213,9 @@ func (s *state) tunnelAddrs() map[string]bool {
 		}
 		if n.IPIPTun != "" {
 			t[n.IPIPTun] = true
+		}
+		if n.VXLANTun6 != "" {
+			t[n.VXLANTun6] = true
 		}
 	}
 	return t
@@ -267,7 +312,13 @@ func (w *world) unrecord(ip string) {
 func (w *world) addrTaken(addr, except string) bool {
 	ip := netip.MustParsePrefix(addr).Addr()
 	for n, nv := range w.st.Nodes {
-		if n != except && netip.MustParsePrefix(nv.Addr).Addr() == ip {
+		if n == except {
+			continue
+		}
+		if nv.Addr != "" && netip.MustParsePrefix(nv.Addr).Addr() == ip {
+			return true
+		}
+		if nv.Addr6 != "" && netip.MustParsePrefix(nv.Addr6).Addr() == ip {
 			return true
 		}
 	}
@@ -281,6 +332,9 @@ func (w *world) mutate() {
 	case r < 12: // pool create / change
 		p := poolCands[c.R.Intn(len(poolCands))]
 		v := &poolV{Mode: poolModes[c.R.Intn(len(poolModes))], Masq: c.R.Intn(2) == 0, LBOnly: c.R.Intn(14) == 0}
+		if isV6(p) {
+			v.Mode = poolModes6[c.R.Intn(len(poolModes6))]
+		}
 		st.Pools[p] = v
 		cp := *v
 		w.emit("pool", p, &cp)
@@ -292,6 +346,30 @@ func (w *world) mutate() {
 		}
 	case r < 30: // node create / address change
 		n := nodeNames[c.R.Intn(len(nodeNames))]
+		if nv := st.Nodes[n]; nv != nil && c.R.Intn(5) < 2 {
+			// IPv6 address of an existing node: set, change (re-addressing) or remove
+			nu := ""
+			if nv.Addr6 == "" || c.R.Intn(4) != 0 {
+				cands := nodeAddr6Cands[n]
+				nu = cands[c.R.Intn(len(cands))]
+				if c.R.Intn(10) == 0 {
+					o := nodeNames[c.R.Intn(len(nodeNames))]
+					nu = nodeAddr6Cands[o][c.R.Intn(len(nodeAddr6Cands[o]))]
+				}
+				if w.addrTaken(nu, n) {
+					return
+				}
+			}
+			if nu == nv.Addr6 {
+				return
+			}
+			nv.Addr6 = nu
+			if c.R.Intn(4) == 0 {
+				nv.MAC6 = fmt.Sprintf("66:aa:bb:cc:ee:%02x", c.R.Intn(4))
+			}
+			w.emitNode(n)
+			return
+		}
 		cands := nodeAddrCands[n]
 		addr := cands[c.R.Intn(len(cands))]
 		if c.R.Intn(10) == 0 { // take over the address of another node if it is free right now
@@ -316,6 +394,7 @@ func (w *world) mutate() {
 			w.emitNode(n)
 			w.unrecord(nv.VXLANTun)
 			w.unrecord(nv.IPIPTun)
+			w.unrecord(nv.VXLANTun6)
 		}
 	case r < 48: // node tunnel address set / change / clear
 		n := nodeNames[c.R.Intn(len(nodeNames))]
@@ -323,13 +402,12 @@ func (w *world) mutate() {
 		if nv == nil {
 			return
 		}
-		kind := "vxlan"
-		if c.R.Intn(2) == 0 {
-			kind = "ipip"
-		}
+		kind := []string{"vxlan", "ipip", "vxlan6"}[c.R.Intn(3)]
 		old := nv.VXLANTun
 		if kind == "ipip" {
 			old = nv.IPIPTun
+		} else if kind == "vxlan6" {
+			old = nv.VXLANTun6
 		}
 		nu := ""
 		if c.R.Intn(5) != 0 {
@@ -340,7 +418,7 @@ func (w *world) mutate() {
 			return
 		}
 		if nu != "" {
-			if b, _ := st.blockOf(nu); b != "" && netip.MustParsePrefix(b).Bits() == 32 && st.Blocks[b].Host != n {
+			if b, _ := st.blockOf(nu); b != "" && fullLen(netip.MustParsePrefix(b)) && st.Blocks[b].Host != n {
 				return // a dedicated /32 tunnel block is used by its own node only
 			} else if b == "" {
 				for _, cand := range blockCands {
@@ -351,9 +429,12 @@ func (w *world) mutate() {
 			}
 			w.record(nu, n) // IPAM first
 		}
-		if kind == "ipip" {
+		switch kind {
+		case "ipip":
 			nv.IPIPTun = nu
-		} else {
+		case "vxlan6":
+			nv.VXLANTun6 = nu
+		default:
 			nv.VXLANTun = nu
 		}
 		w.emitNode(n)
@@ -370,7 +451,7 @@ func (w *world) mutate() {
 			host = nodeNames[1+c.R.Intn(len(nodeNames)-1)]
 		}
 		if bv := st.Blocks[b]; bv != nil {
-			if netip.MustParsePrefix(b).Bits() == 32 && len(bv.Allocs) > 0 {
+			if fullLen(netip.MustParsePrefix(b)) && len(bv.Allocs) > 0 {
 				return // keep a used /32 block with its owner
 			}
 			bv.Host = host
@@ -386,7 +467,7 @@ func (w *world) mutate() {
 		b := bs[c.R.Intn(len(bs))]
 		bv := st.Blocks[b]
 		p := netip.MustParsePrefix(b)
-		if p.Bits() == 32 {
+		if fullLen(p) {
 			return
 		}
 		ord := 1 + c.R.Intn(5)
@@ -435,7 +516,7 @@ func (w *world) mutate() {
 		for i := 0; i < k; i++ {
 			var ip string
 			if c.R.Intn(12) == 0 {
-				ip = []string{"10.0.5.1", "10.0.5.2", "10.7.1.1"}[c.R.Intn(3)] // assigned outside Calico IPAM, in no block
+				ip = []string{"10.0.5.1", "10.0.5.2", "10.7.1.1", "fd10:0:0:5::1"}[c.R.Intn(4)] // assigned outside Calico IPAM, in no block
 			} else {
 				bs := sortedKeysB(st.Blocks)
 				if len(bs) == 0 {
@@ -443,7 +524,7 @@ func (w *world) mutate() {
 				}
 				b := bs[c.R.Intn(len(bs))]
 				ord := 0
-				if netip.MustParsePrefix(b).Bits() != 32 {
+				if !fullLen(netip.MustParsePrefix(b)) {
 					ord = 1 + c.R.Intn(6)
 				} else if st.Blocks[b].Host != me {
 					continue
@@ -612,7 +693,7 @@ func blockKV(cidr string, v *blockV) api.Update {
 		return api.Update{KVPair: model.KVPair{Key: key}, UpdateType: api.UpdateTypeKVDeleted}
 	}
 	p := netip.MustParsePrefix(cidr)
-	size := 1 << (32 - p.Bits())
+	size := blockSize(p)
 	b := &model.AllocationBlock{CIDR: calinet.MustParseCIDR(cidr), Allocations: make([]*int, size)}
 	if v.Host != "" {
 		aff := "host:" + v.Host
@@ -651,7 +732,11 @@ func wepKV(name string, v *wepV) api.Update {
 	}
 	w := &model.WorkloadEndpoint{State: "active", Name: "cali" + name}
 	for _, ip := range v.IPs {
-		w.IPv4Nets = append(w.IPv4Nets, calinet.MustParseCIDR(ip+"/32"))
+		if isV6(ip) {
+			w.IPv6Nets = append(w.IPv6Nets, calinet.MustParseCIDR(ip+"/128"))
+		} else {
+			w.IPv4Nets = append(w.IPv4Nets, calinet.MustParseCIDR(ip+"/32"))
+		}
 	}
 	return api.Update{KVPair: model.KVPair{Key: key, Value: w}, UpdateType: api.UpdateTypeKVUpdated}
 }
@@ -666,9 +751,11 @@ func nodeKVs(proc interface {
 	if v != nil {
 		n := internalapi.NewNode()
 		n.Name = name
-		n.Spec.BGP = &internalapi.NodeBGPSpec{IPv4Address: v.Addr, IPv4IPIPTunnelAddr: v.IPIPTun}
+		n.Spec.BGP = &internalapi.NodeBGPSpec{IPv4Address: v.Addr, IPv6Address: v.Addr6, IPv4IPIPTunnelAddr: v.IPIPTun}
 		n.Spec.IPv4VXLANTunnelAddr = v.VXLANTun
 		n.Spec.VXLANTunnelMACAddr = v.MAC
+		n.Spec.IPv6VXLANTunnelAddr = v.VXLANTun6
+		n.Spec.VXLANTunnelMACAddrV6 = v.MAC6
 		kv.Value = n
 	}
 	kvs, err := proc.Process(kv)
@@ -814,20 +901,32 @@ func (s *state) poolFor(dst netip.Prefix) *poolInfo {
 	return nil
 }
 
-func (s *state) nodeIP(n string) string {
-	if v := s.Nodes[n]; v != nil {
-		return netip.MustParsePrefix(v.Addr).Addr().String()
+// nodeAddr returns node n's host address (CIDR form) of the family of dst, "" if it has none.
+func (s *state) nodeAddr(n string, v6 bool) string {
+	v := s.Nodes[n]
+	if v == nil {
+		return ""
+	}
+	if v6 {
+		return v.Addr6
+	}
+	return v.Addr
+}
+
+func (s *state) nodeIP(n string, v6 bool) string {
+	if a := s.nodeAddr(n, v6); a != "" {
+		return netip.MustParsePrefix(a).Addr().String()
 	}
 	return ""
 }
 
 // inMySubnet: the local node is known and its subnet contains node n's address.
-func (s *state) inMySubnet(n string) bool {
-	mine, other := s.Nodes[me], s.Nodes[n]
-	if mine == nil || other == nil {
+func (s *state) inMySubnet(n string, v6 bool) bool {
+	mine, other := s.nodeAddr(me, v6), s.nodeAddr(n, v6)
+	if mine == "" || other == "" {
 		return false
 	}
-	return netip.MustParsePrefix(mine.Addr).Masked().Contains(netip.MustParsePrefix(other.Addr).Addr())
+	return netip.MustParsePrefix(mine).Masked().Contains(netip.MustParsePrefix(other).Addr())
 }
 
 func hasType(r *proto.RouteUpdate, t proto.RouteType) bool { return r.Types&t == t }
@@ -848,19 +947,19 @@ func (s *state) remoteTargets() []target {
 		bv := s.Blocks[b]
 		p := netip.MustParsePrefix(b)
 		if bv.Host != "" && bv.Host != me {
-			if !(p.Bits() == 32 && (tun[p.Addr().String()] || weps[p.Addr().String()])) {
+			if !(fullLen(p) && (tun[p.Addr().String()] || weps[p.Addr().String()])) {
 				out = append(out, target{Dst: b, Owner: bv.Host, Kind: "remote-block"})
 			}
 		}
 		for ord, y := range bv.Allocs {
-			if y == "" || y == me || y == bv.Host || p.Bits() == 32 {
+			if y == "" || y == me || y == bv.Host || fullLen(p) {
 				continue
 			}
 			a := ordinalIP(b, ord)
 			if tun[a] || weps[a] {
 				continue
 			}
-			out = append(out, target{Dst: a + "/32", Owner: y, Kind: "borrowed"})
+			out = append(out, target{Dst: hostCIDR(a), Owner: y, Kind: "borrowed"})
 		}
 	}
 	sort.Slice(out, func(i, j int) bool { return out[i].Dst < out[j].Dst })
@@ -886,6 +985,10 @@ func (s *state) checkRoutes(c *harness.Case, routes map[string]*proto.RouteUpdat
 	// (a)+(b): remote blocks and borrowed addresses
 	for _, t := range s.remoteTargets() {
 		c.Count("remote_targets_checked", 1)
+		v6 := isV6(t.Dst)
+		if v6 {
+			c.Count("remote_targets_checked_v6", 1)
+		}
 		r := routes[t.Dst]
 		if r == nil {
 			return &verdict{"route-missing:" + t.Kind, fmt.Sprintf("no route for %s %s owned by %s", t.Kind, t.Dst, t.Owner)}
@@ -896,8 +999,8 @@ func (s *state) checkRoutes(c *harness.Case, routes map[string]*proto.RouteUpdat
 		if r.DstNodeName != t.Owner {
 			return &verdict{"wrong-owner:" + t.Kind, fmt.Sprintf("route %s names node %q, the datastore says %q: %v", t.Dst, r.DstNodeName, t.Owner, r)}
 		}
-		if r.DstNodeIp != s.nodeIP(t.Owner) {
-			return &verdict{"wrong-owner-ip:" + t.Kind, fmt.Sprintf("route %s has node IP %q, node %s has %q: %v", t.Dst, r.DstNodeIp, t.Owner, s.nodeIP(t.Owner), r)}
+		if r.DstNodeIp != s.nodeIP(t.Owner, v6) {
+			return &verdict{"wrong-owner-ip:" + t.Kind, fmt.Sprintf("route %s has node IP %q, node %s has %q: %v", t.Dst, r.DstNodeIp, t.Owner, s.nodeIP(t.Owner, v6), r)}
 		}
 		pi := s.poolFor(netip.MustParsePrefix(t.Dst))
 		if pi != nil && pi.lb {
@@ -906,7 +1009,7 @@ func (s *state) checkRoutes(c *harness.Case, routes map[string]*proto.RouteUpdat
 		wantType, wantSame := proto.IPPoolType_NONE, false
 		if pi != nil {
 			wantType = pi.ptype
-			wantSame = pi.cs && s.inMySubnet(t.Owner)
+			wantSame = pi.cs && s.inMySubnet(t.Owner, v6)
 			if pi.cs {
 				c.Count("cross_subnet_targets", 1)
 			}
@@ -916,10 +1019,13 @@ func (s *state) checkRoutes(c *harness.Case, routes map[string]*proto.RouteUpdat
 		}
 		if r.SameSubnet != wantSame {
 			return &verdict{"wrong-same-subnet:" + t.Kind, fmt.Sprintf("route %s has SameSubnet=%v, expected %v (pool cross-subnet=%v, owner %s at %q, local node %+v): %v",
-				t.Dst, r.SameSubnet, wantSame, pi != nil && pi.cs, t.Owner, s.nodeIP(t.Owner), s.Nodes[me], r)}
+				t.Dst, r.SameSubnet, wantSame, pi != nil && pi.cs, t.Owner, s.nodeIP(t.Owner, v6), s.Nodes[me], r)}
 		}
 		if wantSame {
 			c.Count("same_subnet_targets", 1)
+			if v6 {
+				c.Count("same_subnet_targets_v6", 1)
+			}
 		}
 		if t.Kind == "borrowed" {
 			c.Count("borrowed_targets", 1)
@@ -930,7 +1036,7 @@ func (s *state) checkRoutes(c *harness.Case, routes map[string]*proto.RouteUpdat
 	for _, b := range sortedKeysB(s.Blocks) {
 		bv := s.Blocks[b]
 		p := netip.MustParsePrefix(b)
-		if bv.Host != me || p.Bits() == 32 {
+		if bv.Host != me || fullLen(p) {
 			continue
 		}
 		c.Count("local_blocks_checked", 1)
@@ -951,7 +1057,7 @@ func (s *state) checkRoutes(c *harness.Case, routes map[string]*proto.RouteUpdat
 	}
 	for ip := range weps {
 		c.Count("local_weps_checked", 1)
-		r := routes[ip+"/32"]
+		r := routes[hostCIDR(ip)]
 		if r == nil {
 			return &verdict{"route-missing:local-wep", fmt.Sprintf("no route for local workload address %s", ip)}
 		}
@@ -983,7 +1089,7 @@ func (s *state) checkRoutes(c *harness.Case, routes map[string]*proto.RouteUpdat
 					remoteOK = true
 				}
 			}
-			if inside && d.Bits() == 32 {
+			if inside && fullLen(d) {
 				for ord, y := range bv.Allocs {
 					if y != "" && y != bv.Host && ordinalIP(b, ord) == d.Addr().String() {
 						known = true
@@ -996,7 +1102,7 @@ func (s *state) checkRoutes(c *harness.Case, routes map[string]*proto.RouteUpdat
 				}
 			}
 		}
-		if d.Bits() == 32 {
+		if fullLen(d) {
 			a := d.Addr().String()
 			if tun[a] || weps[a] {
 				known = true
@@ -1005,7 +1111,7 @@ func (s *state) checkRoutes(c *harness.Case, routes map[string]*proto.RouteUpdat
 				localOK = true
 			}
 			for n := range s.Nodes {
-				if s.nodeIP(n) == a {
+				if s.nodeIP(n, false) == a || s.nodeIP(n, true) == a {
 					known = true
 				}
 			}
@@ -1062,12 +1168,12 @@ func (w *world) snapshot() []upd {
 // nestedInBlockCand: dst is a single address strictly inside one of the block CIDRs of the universe.
 func nestedInBlockCand(dst string) bool {
 	d := netip.MustParsePrefix(dst)
-	if d.Bits() != 32 {
+	if !fullLen(d) {
 		return false
 	}
 	for _, b := range blockCands {
 		p := netip.MustParsePrefix(b)
-		if p.Bits() < 32 && p.Contains(d.Addr()) {
+		if !fullLen(p) && p.Contains(d.Addr()) {
 			return true
 		}
 	}
@@ -1170,12 +1276,12 @@ func main() {
 	harness.Main(harness.Check{
 		ID:    "C43",
 		Level: "exploration",
-		Rule: "each case is a TRUE datastore history of 60-100 (thorough 120-160) consistency-preserving mutations over 4 disjoint pools (none/ipip/vxlan x always/cross-subnet, LB-only), 5 nodes incl. the local one " +
-			"(addresses in/out of the local subnet, VXLAN/IPIP tunnel addresses in/out of blocks and pools), 10 disjoint blocks (a /32 block, a block equal to a pool, a block in no pool; affinity changes and releases; affine, borrowed, ownerless allocations) " +
+		Rule: "each case is a TRUE datastore history of 60-100 (thorough 120-160) consistency-preserving mutations over 4 IPv4 + 3 IPv6 disjoint pools (none/ipip/vxlan x always/cross-subnet, IPv6 without ipip; LB-only), 5 nodes incl. the local one " +
+			"(addresses in/out of the local subnet, VXLAN/IPIP tunnel addresses in/out of blocks and pools), 10 IPv4 + 8 IPv6 disjoint blocks (a /32 and a /128 block, a block equal to a pool, a block in no pool; affinity changes and releases; affine, borrowed, ownerless allocations) " +
 			"and 3 local workloads; IPAM records precede use and outlive it. Felix's view of it is built twice independently: per resource kind a snapshot at a random point followed by the remaining events in order, kinds interleaved at random, random flush points, optional resync; " +
 			"a third run delivers the final state alone. Every emitted message also goes to the real vxlan/ipip/noencap managers (shared recording route table, CompleteDeferredWork at every flush) whose final SetRoutes state is judged. non-trivial = the final state has a pool and at least one remote block or borrowed address; distinct by the two delivered histories",
 		Assumptions: []string{
-			"IPv4 only; CalicoIPAM route source; node resources are expanded by the real FelixNodeUpdateProcessor; pools/blocks/endpoints are delivered as the v1 model types Felix's syncer produces",
+			"IPv4 and IPv6 (dual stack: every node has an IPv4 address, the IPv6 address is optional, can change subnet and can be removed); CalicoIPAM route source; node resources are expanded by the real FelixNodeUpdateProcessor; pools/blocks/endpoints are delivered as the v1 model types Felix's syncer produces",
 			"the datastore's own invariants hold in the true history: pools disjoint, blocks disjoint, node addresses unique at every instant, addresses in use are recorded in their IPAM block with the node attribute",
 			"one watch per resource kind: per-kind event order is preserved, cross-kind order is arbitrary",
 			"single goroutine; no race detector (CGO-off binary: felix/dataplane/linux needs the libbpf stub)",
